@@ -11,7 +11,7 @@ use simcore::{Arm, CheckSpec, Chooser, Ctx, FnArm, RunInfo};
 use utils::{Deserializable, Serializable};
 
 use crate::dispatch::*;
-use crate::proto::{felt, SimField};
+use crate::proto::{felt, to_u128, SimField};
 
 #[derive(Clone, Debug, PartialEq, Eq)]
 enum Op {
@@ -22,37 +22,112 @@ enum Op {
     Pow(u64),
 }
 
-/// Reference coin: the documented construction, over the public hasher API only.
+/// Reference coin: the documented construction, over the public hasher API only. Where the
+/// hasher's `merge_with_int` has a documented equivalent in terms of `hash` / `hash_elements`
+/// (all hashers but the Jive one) the model uses that equivalent, not `merge_with_int` itself.
 struct ModelCoin<H: ElementHasher> {
+    cfg: Cfg,
     seed: H::Digest,
     counter: u64,
+    /// hash-free identity of the history that led to `seed` (seed elements, reseed data and
+    /// nonces folded with the harness's own FNV): two coins *should* be in different states
+    /// exactly when these differ, whatever the hasher under test makes of them
+    abs: u64,
+}
+
+fn modulus_u128<B: StarkField>() -> u128 {
+    to_u128(B::ZERO - B::ONE) + 1
+}
+
+/// the base-field elements a Rescue digest consists of, unpacked from its 32 canonical bytes
+fn digest_elements<B: StarkField, H: ElementHasher<BaseField = B>>(cfg: Cfg, d: &H::Digest) -> Vec<B> {
+    let b = d.as_bytes();
+    let w: Vec<u64> = (0..4).map(|i| u64::from_le_bytes(b[8 * i..8 * i + 8].try_into().unwrap())).collect();
+    match cfg.1 {
+        HasherId::Rp62_248 => {
+            // 4 x 62 bits packed back to back
+            let m = (1u64 << 62) - 1;
+            vec![w[0] & m, ((w[0] >> 62) | (w[1] << 2)) & m, ((w[1] >> 60) | (w[2] << 4)) & m, ((w[2] >> 58) | (w[3] << 6)) & m].into_iter().map(felt::<B>).collect()
+        },
+        _ => w.into_iter().map(felt::<B>).collect(),
+    }
+}
+
+/// hash(seed || value) by the documented equivalent; None for the Jive hasher, whose
+/// compression mode has no equivalent in terms of the other public functions
+fn ref_merge_with_int<B: StarkField, H: ElementHasher<BaseField = B>>(cfg: Cfg, seed: H::Digest, value: u64) -> Option<H::Digest> {
+    match cfg.1 {
+        HasherId::Blake3_192 | HasherId::Blake3_256 | HasherId::Sha3_256 => {
+            let n = seed.to_bytes().len();
+            let mut data = seed.as_bytes()[..n].to_vec();
+            data.extend_from_slice(&value.to_le_bytes());
+            Some(H::hash(&data))
+        },
+        HasherId::Rp62_248 | HasherId::Rp64_256 => {
+            let m = modulus_u128::<B>();
+            let mut e = digest_elements::<B, H>(cfg, &seed);
+            e.push(felt::<B>((value as u128 % m) as u64));
+            if value as u128 >= m {
+                e.push(felt::<B>((value as u128 / m) as u64));
+            }
+            Some(H::hash_elements(&e))
+        },
+        HasherId::RpJive64_256 => None,
+    }
+}
+
+fn fold(abs: u64, tag: u8, data: &[u8]) -> u64 {
+    let mut v = abs.to_le_bytes().to_vec();
+    v.push(tag);
+    v.extend_from_slice(data);
+    simcore::rng::fnv1a(&v)
 }
 
 impl<B: StarkField, H: ElementHasher<BaseField = B>> ModelCoin<H> {
-    fn new(seed: &[B]) -> Self {
-        ModelCoin { seed: H::hash_elements(seed), counter: 0 }
+    fn new(cfg: Cfg, seed: &[B]) -> Self {
+        let mut abs = fold(0, b'S', &(seed.len() as u64).to_le_bytes());
+        for e in seed {
+            abs = fold(abs, b'e', &to_u128(*e).to_le_bytes());
+        }
+        ModelCoin { cfg, seed: H::hash_elements(seed), counter: 0, abs }
+    }
+    fn mwi(&self, value: u64) -> H::Digest {
+        ref_merge_with_int::<B, H>(self.cfg, self.seed, value).unwrap_or_else(|| H::merge_with_int(self.seed, value))
     }
     fn next(&mut self) -> H::Digest {
         self.counter += 1;
-        H::merge_with_int(self.seed, self.counter)
+        self.mwi(self.counter)
     }
-    fn reseed(&mut self, data: H::Digest) {
+    fn reseed(&mut self, data: H::Digest, raw: &[u8]) {
         self.seed = H::merge(&[self.seed, data]);
         self.counter = 0;
+        self.abs = fold(self.abs, b'R', raw);
     }
-    fn draw<E: FieldElement<BaseField = B>>(&mut self) -> Option<E> {
+    /// the canonical integer coordinates of the next element: the first candidate all of whose
+    /// coordinates are below the modulus (no use of the field's own byte decoding)
+    fn draw<E: FieldElement<BaseField = B>>(&mut self) -> Option<Vec<u128>> {
+        let m = modulus_u128::<B>();
+        let eb = B::ELEMENT_BYTES;
         for _ in 0..1000 {
             let v = self.next();
             let bytes = v.as_bytes();
-            if let Some(e) = E::from_random_bytes(&bytes[..E::ELEMENT_BYTES]) {
-                return Some(e);
+            let coords: Vec<u128> = (0..E::EXTENSION_DEGREE)
+                .map(|i| {
+                    let mut buf = [0u8; 16];
+                    buf[..eb].copy_from_slice(&bytes[i * eb..(i + 1) * eb]);
+                    u128::from_le_bytes(buf)
+                })
+                .collect();
+            if coords.iter().all(|c| *c < m) {
+                return Some(coords);
             }
         }
         None
     }
     fn integers(&mut self, count: usize, domain: usize, nonce: u64) -> Option<Vec<usize>> {
-        self.seed = H::merge_with_int(self.seed, nonce);
+        self.seed = self.mwi(nonce);
         self.counter = 0;
+        self.abs = fold(self.abs, b'N', &nonce.to_le_bytes());
         let mask = (domain - 1) as u64;
         let mut out = vec![];
         for _ in 0..1000 {
@@ -66,13 +141,17 @@ impl<B: StarkField, H: ElementHasher<BaseField = B>> ModelCoin<H> {
         None
     }
     fn pow(&self, nonce: u64) -> u32 {
-        let v = H::merge_with_int(self.seed, nonce);
+        let v = self.mwi(nonce);
         let b: [u8; 8] = v.as_bytes()[..8].try_into().unwrap();
         u64::from_le_bytes(b).trailing_zeros()
     }
     fn state(&self) -> (Vec<u8>, u64) {
-        (self.seed.as_bytes().to_vec(), self.counter)
+        (self.abs.to_le_bytes().to_vec(), self.counter)
     }
+}
+
+fn coords_of<B: StarkField, E: FieldElement<BaseField = B>>(e: &E) -> Vec<u128> {
+    E::slice_as_base_elements(core::slice::from_ref(e)).iter().map(|c| to_u128(*c)).collect()
 }
 
 fn elem_bytes<E: FieldElement>(e: &E) -> Vec<u8> {
@@ -119,14 +198,14 @@ fn apply<B: SimField, H: ElementHasher<BaseField = B>>(
     ops: &[Op],
 ) -> Option<Vec<(Vec<u8>, (Vec<u8>, u64))>> {
     let mut real = DefaultRandomCoin::<H>::new(seed);
-    let mut model = ModelCoin::<H>::new(seed);
+    let mut model = ModelCoin::<H>::new(cfg, seed);
     let mut outs = vec![];
     for (i, op) in ops.iter().enumerate() {
         let out: Vec<u8> = match op {
             Op::Reseed(d) => {
                 let dg = digest_from::<H>(d);
                 real.reseed(dg);
-                model.reseed(dg);
+                model.reseed(dg, d);
                 vec![]
             },
             Op::Draw(deg) => {
@@ -142,10 +221,10 @@ fn apply<B: SimField, H: ElementHasher<BaseField = B>>(
                     let m = model.draw::<E>();
                     match (r, m) {
                         (Ok(Ok(a)), Some(b)) => {
-                            if a != b {
+                            if coords_of::<B, E>(&a) != b {
                                 ctx.violation(
                                     format!("C19/draw-differs-from-definition degree{}", E::EXTENSION_DEGREE),
-                                    format!("{who} op #{i}: draw::<degree {}> returned {:02x?}, the documented construction gives {:02x?}; {:?}", E::EXTENSION_DEGREE, &elem_bytes(&a)[..8], &elem_bytes(&b)[..8], cfg),
+                                    format!("{who} op #{i}: draw::<degree {}> returned coordinates {:?}, the documented construction (first candidate with every coordinate below the modulus) gives {:?}; {:?}", E::EXTENSION_DEGREE, coords_of::<B, E>(&a), b, cfg),
                                 );
                                 return None;
                             }
@@ -229,7 +308,21 @@ fn apply<B: SimField, H: ElementHasher<BaseField = B>>(
     Some(outs)
 }
 
-fn gen_op(ch: &mut Chooser) -> Op {
+/// k * M + r for a small r and 1 <= k <= (2^64 - 1 - r) / M: integers that the Rescue hashers
+/// have to split into two field elements (M = base field modulus, when it fits into 64 bits)
+fn multiple_of_modulus(ch: &mut Chooser, m64: Option<u64>) -> u64 {
+    let r = ch.pick("op.nonce.r", 1000);
+    match m64 {
+        Some(m) => {
+            let kmax = (u64::MAX - r) / m;
+            let k = 1 + ch.pick("op.nonce.k", kmax.max(1));
+            k.min(kmax) * m + r
+        },
+        None => u64::MAX - r,
+    }
+}
+
+fn gen_op(ch: &mut Chooser, m64: Option<u64>) -> Op {
     match ch.weighted("op.kind", &[3, 6, 2, 2]) {
         0 => {
             let len = 1 + ch.index("op.reseedlen", 40);
@@ -242,18 +335,20 @@ fn gen_op(ch: &mut Chooser) -> Op {
             let log_domain = ch.biased("op.logdomain", 1, 32, &[1, 2, 3, 8, 10, 16, 31, 32]) as u32;
             let max = ((1u64 << log_domain) - 1).min(255);
             let count = ch.biased("op.count", 1, max.max(1), &[1, 2, 255, max]) as usize;
-            let nonce = match ch.weighted("op.noncekind", &[2, 2, 2, 1]) {
+            let nonce = match ch.weighted("op.noncekind", &[2, 2, 2, 1, 2]) {
                 0 => 0,
                 1 => 1 + ch.pick("op.nonce", 1000),
                 2 => ch.u64("op.nonce64"),
-                _ => (1u64 << 32) + ch.pick("op.nonce", 1000),
+                3 => (1u64 << 32) + ch.pick("op.nonce", 1000),
+                _ => multiple_of_modulus(ch, m64),
             };
             Op::Integers { count: count.min(((1u64 << log_domain) - 1) as usize).max(1), log_domain, nonce }
         },
-        _ => Op::Pow(match ch.weighted("op.powkind", &[2, 2, 1]) {
+        _ => Op::Pow(match ch.weighted("op.powkind", &[2, 2, 1, 2]) {
             0 => ch.pick("op.pownonce", 1 << 16),
             1 => ch.u64("op.pownonce64"),
-            _ => (1u64 << 32) + ch.pick("op.pownonce", 1 << 16),
+            2 => (1u64 << 32) + ch.pick("op.pownonce", 1 << 16),
+            _ => multiple_of_modulus(ch, m64),
         }),
     }
 }
@@ -264,14 +359,16 @@ fn run<B: SimField, H: ElementHasher<BaseField = B> + Send + Sync + 'static>(ch:
     let mut r = simcore::rng::Xoshiro::from_u64(salt);
     let seed: Vec<B> = (0..nseed).map(|_| felt::<B>(r.next() >> 2)).collect();
     let nops = 1 + ch.index("ops.count", 30);
-    let ops: Vec<Op> = (0..nops).map(|_| gen_op(ch)).collect();
+    let m = modulus_u128::<B>();
+    let m64 = if m <= u64::MAX as u128 { Some(m as u64) } else { None };
+    let mut ops: Vec<Op> = (0..nops).map(|_| gen_op(ch, m64)).collect();
     // a draw_integers with domain 2 needs count 1
     ctx.event_with("history", simcore::rng::fnv1a(format!("{:?}{:?}", cfg, ops).as_bytes()), || format!("{:?}: seed of {nseed} elements, {nops} operations", cfg));
 
     // replica B: the same history with one fault
     let mut ops_b = ops.clone();
     let mut seed_b = seed.clone();
-    let fault = ch.weighted("fault.kind", &[2, 2, 2, 2, 2, 2, 2, 2]);
+    let fault = ch.weighted("fault.kind", &[2, 2, 2, 2, 2, 2, 2, 2, 2]);
     let at = ch.index("fault.at", nops);
     let fname = match fault {
         0 => "none",
@@ -329,6 +426,23 @@ fn run<B: SimField, H: ElementHasher<BaseField = B> + Send + Sync + 'static>(ch:
             ops_b.insert(at, Op::Draw(1));
             "one_extra_draw"
         },
+        8 => {
+            // two nonces that are congruent modulo the base field: k1 * M + r and k2 * M + r
+            match (m64, ops.iter().skip(at).position(|o| matches!(o, Op::Integers { .. }))) {
+                (Some(m), Some(off)) => {
+                    let r = ch.pick("fault.alias.r", 1000);
+                    let kmax = (u64::MAX - r) / m;
+                    let k1 = ch.pick("fault.alias.k1", kmax + 1);
+                    let k2 = (k1 + 1 + ch.pick("fault.alias.k2", kmax)) % (kmax + 1);
+                    if let (Op::Integers { nonce: na, .. }, Op::Integers { nonce: nb, .. }) = (&mut ops[at + off], &mut ops_b[at + off]) {
+                        *na = k1 * m + r;
+                        *nb = k2 * m + r;
+                    }
+                    "nonces_congruent_modulo_the_field"
+                },
+                _ => "none",
+            }
+        },
         _ => {
             if let Some(k) = ops_b.iter().position(|o| matches!(o, Op::Draw(_))) {
                 ops_b.remove(k);
@@ -358,8 +472,8 @@ fn run<B: SimField, H: ElementHasher<BaseField = B> + Send + Sync + 'static>(ch:
     let mut tb = ops_b.clone();
     tb.push(Op::Draw(1));
     let (Some(fa), Some(fb)) = (apply::<B, H>(ctx, cfg, "replica A+", &seed, &ta), apply::<B, H>(ctx, cfg, "replica B+", &seed_b, &tb)) else { return };
-    let init_a = ModelCoin::<H>::new(&seed).state();
-    let init_b = ModelCoin::<H>::new(&seed_b).state();
+    let init_a = ModelCoin::<H>::new(cfg, &seed).state();
+    let init_b = ModelCoin::<H>::new(cfg, &seed_b).state();
     let sa = outs_a.last().map(|x| x.1.clone()).unwrap_or(init_a);
     let sb = outs_b.last().map(|x| x.1.clone()).unwrap_or(init_b);
     let (da, db) = (&fa.last().unwrap().0, &fb.last().unwrap().0);
